@@ -23,6 +23,24 @@ impl Entry for NumEntry {
     }
 }
 
+/// A large inline entry (16 KiB): the same "id" value as `NumEntry`, plus padding that makes the
+/// queue's ring buffer big (capacity x size_of::<BigEntry>()).
+#[derive(Clone)]
+pub struct BigEntry {
+    pub id: u64,
+    pub pad: [u8; 16 * 1024 - 8],
+}
+impl BigEntry {
+    pub fn new(id: u64) -> Self {
+        BigEntry { id, pad: [0; 16 * 1024 - 8] }
+    }
+}
+impl Entry for BigEntry {
+    fn write<'a>(&'a self, writer: &mut impl EntryWriter<'a>) {
+        writer.value("id", &self.id);
+    }
+}
+
 /// What a stream call captured from the entry handed to it.
 #[derive(Default, Debug)]
 pub struct Captured {
